@@ -13,8 +13,9 @@ def finish(prop, tier, seed, t0, mc, nbeh, behaviours_path, val, rule, nontrivia
            layer, sig_of, replay_extra=None, level="model_checking"):
     """Turn validation results into verdict + evidence.  Returns the exit code."""
     known = load_known()
-    mine = [v for v in val["violations"] if v["prop"] == prop]
-    others = [v for v in val["violations"] if v["prop"] != prop]
+    # a violation names its primary property and may name further properties whose text it also contradicts
+    mine = [v for v in val["violations"] if v["prop"] == prop or prop in v.get("props", ())]
+    others = [v for v in val["violations"] if not (v["prop"] == prop or prop in v.get("props", ()))]
     behs = None
     # distinct / non-trivial count, samples
     seen = set()
@@ -690,7 +691,7 @@ def adapters_pipeline(prop, tier, seed, work, t0):
     hrc = run_harness(["adapters-replay", beh, trace])
     val = ad_validate(trace, work)
     algo = None
-    if prop in ("C09", "C15"):
+    if prop in ("C09", "C10", "C15"):
         algo = algo_collect(prop, tier, seed, work, beh, n)
         val["violations"] += algo["violations"]
         val["states"] = val.get("states", 0) + algo["states"]
@@ -794,11 +795,16 @@ def tokens_pipeline(prop, tier, seed, work, t0):
     b = os.path.join(work, "beh-vec.ndjson")
     base = dict(MaxDecs=2, SubIds={1, 2}, MaxLen=2, LagThenClosedLosesState=False, InitLens={0}, PreSubs={0})
     k = 0
-    for j, (spec, over) in enumerate([("SpecStreams", dict(Caps={1, 2}, Depth=5 if quick else 6)),
-                                      ("SpecTxn", dict(Caps={1, 16}, Depth=5 if quick else 6, SubIds={1}))]):
-        c = os.path.join(work, "GenVecEdge%d.cfg" % j)
-        write_cfg(c, spec=spec, constants=dict(base, **over), view="View", constraints=["Bound"], action_constraints=["Edge"])
-        kk, r = gen_behaviours("GenVec", c, work, b, "edge", tag="ve%d" % j, workers=12)
+    for j, (spec, over, mode) in enumerate([("SpecStreams", dict(Caps={1, 2}, Depth=5 if quick else 6), "edge"),
+                                            ("SpecTxn", dict(Caps={1, 16}, Depth=5 if quick else 6, SubIds={1}), "edge"),
+                                            ("SpecTxnCore", dict(Caps={16}, Depth=6 if quick else 7, InitLens={2}, PreSubs={2}, MaxLen=4), "tree"),
+                                            ("SpecLag", dict(Caps={1, 2}, Depth=5 if quick else 6, InitLens={1}, PreSubs={2}, MaxLen=4), "tree")]):
+        c = os.path.join(work, "GenVec%s%d.cfg" % (mode, j))
+        if mode == "edge":
+            write_cfg(c, spec=spec, constants=dict(base, **over), view="View", constraints=["Bound"], action_constraints=["Edge"])
+        else:
+            write_cfg(c, spec=spec, constants=dict(base, **over), constraints=["BoundTree"], invariants=["PrintAtDepth"])
+        kk, r = gen_behaviours("GenVec", c, work, b, mode, tag="ve%d" % j, workers=12)
         gstates += r["distinct"]; gtrans += r["generated"]
         k += kk
     c = os.path.join(work, "GenVecSim.cfg")
@@ -912,7 +918,7 @@ def _lin_classify(events, rej):
             # every owner is gone.  Was the observable really closed?  Then the parked subscriber lost the
             # wake-up of the close (C02); otherwise nobody closed it (C03).
             return ("C02", "stuck-although-closed") if closed else ("C03", "stuck-after-last-owner-dropped")
-        return ("C02", "stuck-with-update-available")
+        return ("C02", "stuck-with-update-available", ("C02", "C04"))
     if rej.get("e") == "Hung":
         return ("C04", "deadlock")
     if rej.get("e") == "resp":
@@ -967,8 +973,9 @@ def validate_lin(trace, work, tag="lin", max_rejects=40):
         if run is None:
             raise ToolError("rejected event outside any run")
         events = [json.loads(x) for x in lines[run[1]:run[2] + 1]]
-        prop, clause = _lin_classify(events, rej)
-        viol.append(dict(run=run[0], event=idx - run[1] + 1, prop=prop, clause=clause,
+        cls = _lin_classify(events, rej)
+        prop, clause = cls[0], cls[1]
+        viol.append(dict(run=run[0], event=idx - run[1] + 1, prop=prop, clause=clause, props=tuple(cls[2]) if len(cls) > 2 else (prop,),
                          detail=dict(op=rej.get("e"), rejected=rej, history=events)))
         start = run[2] + 1
     os.path.exists(part) and os.remove(part)
